@@ -2,8 +2,9 @@
 """C20: when a regenerated-fact theorem no longer checks, name the concrete item on which the
 property fails (a message/enum/service whose descriptors differ between the families, a Msg
 that is not registered or has no address signer, a new scalar-customtype message field)."""
-import json
-d = json.load(open("/verif/work/api_facts.json"))
+import json, os
+R = os.path.dirname(os.path.dirname(os.path.abspath(__file__)))
+d = json.load(open(os.path.join(R, "work/api_facts.json")))
 g = {i["kind"] + ":" + i["name"]: i["hex"] for i in d["gogo"]}
 p = {i["kind"] + ":" + i["name"]: i["hex"] for i in d["pulsar"]}
 found = False
